@@ -299,9 +299,15 @@ func c13(r *lp.Run) {
 		rtJSON(c, "json.IP(v4)", ogenjson.EncodeIP, ogenjson.DecodeIP, ip4, eqAddr, nil, shw[netip.Addr])
 		rtJSON(c, "json.IP(v6)", ogenjson.EncodeIP, ogenjson.DecodeIP, ip6, eqAddr, nil, shw[netip.Addr])
 		rtJSON(c, "json.IPv4", ogenjson.EncodeIPv4, ogenjson.DecodeIPv4, ip4, eqAddr, nil, shw[netip.Addr])
-		if !ip6.Is4In6() {
-			rtJSON(c, "json.IPv6", ogenjson.EncodeIPv6, ogenjson.DecodeIPv6, ip6, eqAddr, nil, shw[netip.Addr])
+		// special forms first: IPv4-mapped and IPv4-translated addresses, unspecified, loopback, a zone
+		if sp := []string{"::ffff:192.0.2.1", "::ffff:0.0.0.0", "::ffff:255.255.255.255", "64:ff9b::192.0.2.33", "::", "::1", "fe80::1%eth0", "::ffff:0:0", "::1.2.3.4", "2001:db8::", "ff02::1"}; i < len(sp) {
+			ip6 = netip.MustParseAddr(sp[i])
+		} else if i%16 == 0 {
+			ip6 = netip.AddrFrom16([16]byte{10: 0xff, 11: 0xff, 12: a16[12], 13: a16[13], 14: a16[14], 15: a16[15]})
 		}
+		rtJSON(c, "json.IPv6", ogenjson.EncodeIPv6, ogenjson.DecodeIPv6, ip6, eqAddr, nil, shw[netip.Addr])
+		rtJSON(c, "json.IP(v6 special)", ogenjson.EncodeIP, ogenjson.DecodeIP, ip6, eqAddr, nil, shw[netip.Addr])
+		rt(c, "conv.Addr(v6 special)", conv.AddrToString, conv.ToAddr, ip6, eqAddr, nil, shw[netip.Addr])
 		mac := make(net.HardwareAddr, []int{6, 8, 20}[i%3])
 		for j := range mac {
 			mac[j] = byte(rng.Uint64())
